@@ -344,3 +344,104 @@ def r02_4_weekday_anchor(ctx: Ctx) -> RuleResult:
         if not (in_mod or in_sign_test):
             rr.undecided.append(f"use `{unparse(par)[:50]}` of the day number is not under a remainder by 7: periodicity not read off the code")
     return rr
+
+
+# shared with C13: the Hebrew / generic year-start caches feed every date computation; a slot trusted for the wrong year
+# makes month lengths and day numbers depend on what was asked before (reported under its home id R13.1)
+from .c13 import r13_1_year_cache_keys as _r13_1  # noqa: E402
+
+rule("C02")(_r13_1)
+
+
+# ------------------------------------------------------------------------------------------- R02.5 / R02.6
+
+
+@rule("C02")
+def r02_5_leap_decisions(ctx: Ctx) -> RuleResult:
+    """Wherever the calendar code chooses between a leap and a common alternative (month-length tables, 365/366, 354/355 ...),
+    the choice is made by the calculator's leap predicate - not by a private arithmetic test on the year, which is how a table
+    builder or fast path ends up with a different rule (Julian instead of Gregorian) than the calculator it serves."""
+    import re
+
+    rr = RuleResult("R02.5", "every leap/common selection in the calendar calculators is decided by a leap-year predicate, never by inline arithmetic on the year", min_instances=6)
+    pat = re.compile(r"LEAP|\b36[56]\b|\b35[45]\b")
+    for f in sorted(set(ctx.M.func_of_node.values()), key=lambda x: x.qual):
+        if "/calendars/" not in f.mod.rel or isinstance(f.node, ast.Lambda) or "is_leap" in f.name:
+            continue
+        from ..kit import inline_locals
+
+        for n in own_nodes(f.node):
+            if not isinstance(n, (ast.If, ast.IfExp)):
+                continue
+            arms = (n.body if isinstance(n.body, list) else [n.body]) + (n.orelse if isinstance(n.orelse, list) else [n.orelse])
+            if not pat.search(" ".join(unparse(a) for a in arms)):
+                continue
+            test = inline_locals(f.node, n.test)
+            has_pred = any(isinstance(c, ast.Call) and "is_leap" in unparse(c.func) for c in ast.walk(test))
+            arith = [b for b in ast.walk(test) if isinstance(b, ast.BinOp) and isinstance(b.op, (ast.Mod, ast.BitAnd)) and any(isinstance(x, ast.Name) and "year" in x.id for x in ast.walk(b))]
+            if not has_pred and not arith:
+                continue  # not a leap decision (range / era / month tests)
+            rr.inst()
+            if arith and not has_pred:
+                rr.fail(f.qual, f"chooses between leap and common alternatives on `{unparse(n.test)[:70]}`: an inline test on the year instead of the calculator's leap predicate", ctx.loc(f, n))
+            else:
+                rr.ok({"fn": f.qual, "test": unparse(n.test)[:70]})
+    return rr
+
+
+@rule("C02")
+def r02_6_day_of_year_decomposition(ctx: Ctx) -> RuleResult:
+    """year + day-of-year -> month/day: evaluated (abstract interpreter on exact integers, nothing is run) for a common and a leap
+    year of each arithmetic calculator and compared with the published month tables; quick tier: the first two and last two days
+    of every month, thorough tier: every day of both years."""
+    rr = RuleResult("R02.6", "day-of-year decomposes into the month and day given by the published month tables (first/last days of every month in a common and a leap year; every day in the thorough tier)", min_instances=8)
+    M = ctx.M
+    done: set[str] = set()
+    for ci in calculator_instances(ctx):
+        k = _kind(ci)
+        if k is None or k == "hebrew":
+            continue
+        fam = "islamic" if k.startswith("islamic") else "persian" if k.startswith("persian") else k
+        if ci.cls in done:
+            continue
+        done.add(ci.cls)
+        table = MONTHS[fam][1]
+        cls = M.cls(ci.cls)
+        f = M.find_method(cls, "_get_year_month_day_from_year_and_day_of_year")
+        if f is None:
+            raise AnalysisError(f"{ci.cls}._get_year_month_day_from_year_and_day_of_year missing")
+        spec = _leap_spec(ctx, ci)
+        assert spec is not None
+        want_leap, cycle, years = spec
+        ys = list(years)
+        for y, leap in ((next(y for y in ys if not want_leap(y)), False), (next(y for y in ys if want_leap(y)), True)):
+            rr.inst()
+            months = table(leap)
+            expected: list[tuple[int, int]] = [(m + 1, d + 1) for m, n in enumerate(months) for d in range(n)]
+            days = range(1, len(expected) + 1)
+            if ctx.tier == "quick":
+                days = [i + 1 for i, (m, d) in enumerate(expected) if d <= 2 or d >= months[m - 1] - 1]
+            bad = None
+            pnames = [a.arg for a in f.value_params]
+            for doy in days:
+                I = interp(ctx)
+                I.max_depth = 6
+                got: list[tuple] = []
+
+                def on_call(c, callee, bound, st, fn, _got=got):  # type: ignore[no-untyped-def]
+                    if callee.cls is not None and callee.cls.name == "_YearMonthDay" and "month" in bound and "day" in bound:
+                        _got.append((bound.get("month"), bound.get("day")))
+
+                I.on_call = on_call
+                I.hooks_all_depths = True
+                I.analyse(f, self_obj=Obj(ci.cls, dict(ci.obj.fields)), params={pnames[0]: Iv(y, y), pnames[1]: Iv(doy, doy)})
+                rr.states += 1
+                vals = {(int(m.lo), int(d.lo)) for m, d in got if isinstance(m, Iv) and isinstance(d, Iv) and m.const and d.const}
+                if vals != {expected[doy - 1]} or len(vals) != len({(repr(m), repr(d)) for m, d in got}):
+                    bad = (doy, sorted(vals) or [(repr(m), repr(d)) for m, d in got][:2])
+                    break
+            if bad is None:
+                rr.ok({"calculator": ci.cls, "year": y, "leap": leap, "days_evaluated": len(list(days))})
+            else:
+                rr.fail(ci.cls, f"{'leap' if leap else 'common'} year {y}, day-of-year {bad[0]}: decomposed into {bad[1]}, the month tables give {expected[bad[0] - 1]}", ctx.loc(f))
+    return rr
